@@ -124,6 +124,9 @@ def build(ctx):
         for j in range(nobj):
             s = ''.join(rng.choice('STY' if rng.random() < 0.2 else 'EKDRGSPQAN' if rng.random() < 0.8 else AAS)
                         for _ in range(rng.randint(6, 22)))
+            if rng.random() < 0.2:      # degenerate compositions: delta-max exactly 0, uncharged, very short
+                s = rng.choice(['KKKKKKKK', 'RKRKRKRKRKRK', 'DEDEDEDE', 'EKGS', 'KAEAK', 'GSGSGSGS', 'K', 'EK', 'SSSTTTYY',
+                                'EEEEEEGGGG', 'KKKKKKGGGGGGGGGGGGGGGGGGG'])
             sty = [i + 1 for i, c in enumerate(s) if c in 'STY']
             sites = rng.sample(sty, min(len(sty), rng.randint(0, 3)))
             specs.append((s, sites, j == 1 and rng.random() < 0.7))
